@@ -7,3 +7,15 @@ if [ ! -d "$HERE/.deps/z3" ]; then
       --target "$HERE/.deps" z3-solver
 fi
 PYTHONPATH="$HERE/.deps" /venv/bin/python -c "import z3; print('z3', z3.get_version_string())"
+# the lemma library behind the SMT encodings (DESIGN.md 3.1): machine-checked when Lean + Mathlib are present
+if command -v lean >/dev/null 2>&1; then
+  SHA=$(sha256sum "$HERE/lean/HolopyLemmas.lean" | cut -c1-16)
+  if (cd "$HERE/lean" && timeout 1500 lean HolopyLemmas.lean >"$HERE/lean/build.log" 2>&1) && ! grep -q "error" "$HERE/lean/build.log"; then
+    echo "checked $SHA $(lean --version | head -1)" > "$HERE/lean/STATUS"
+  else
+    echo "FAILED $SHA (see lean/build.log)" > "$HERE/lean/STATUS"
+  fi
+else
+  echo "not-checked (lean not installed)" > "$HERE/lean/STATUS"
+fi
+cat "$HERE/lean/STATUS"
